@@ -14,7 +14,7 @@ from __future__ import annotations
 
 import ast
 
-from ..model import ClassInfo, FuncInfo, Program, call_name, is_self_attr, norm
+from ..model import ClassInfo, FuncInfo, Program, call_name, is_self_attr, norm, execution_condition
 from ..report import AnalysisError
 
 PROP = "C19"
@@ -151,6 +151,18 @@ def rule_r1(rep, program: Program):
 
 
 def _guarded_by_none_test(f: FuncInfo, node, slot: str) -> bool:
+    # conditions under which the store executes (enclosing ifs and earlier guard clauses such as
+    # `if self._x is not None: return self._x`): one of them must say "the slot is still None"
+    stmt = node
+    for e, truth in execution_condition(f.node, stmt, stop_at=(ast.FunctionDef,)):
+        for lit in (e.values if isinstance(e, ast.BoolOp) and ((isinstance(e.op, ast.And) and truth) or (isinstance(e.op, ast.Or) and not truth)) else [e]):
+            neg = False
+            while isinstance(lit, ast.UnaryOp) and isinstance(lit.op, ast.Not):
+                lit, neg = lit.operand, not neg
+            if isinstance(lit, ast.Compare) and len(lit.ops) == 1 and norm(lit.left) == f"self.{slot}" and norm(lit.comparators[0]) == "None":
+                is_none = isinstance(lit.ops[0], (ast.Is, ast.Eq))
+                if (is_none != neg) == truth:
+                    return True
     for n in ast.walk(f.node):
         if isinstance(n, ast.If) and any(x is node for s in n.body for x in ast.walk(s)):
             t = norm(n.test)
